@@ -28,12 +28,17 @@ SCRIPT = os.path.join("checks", "c14.py")
 # ---------------------------------------------------------------------------------------------
 
 
+COLD_EXPENSIVE = False  # set in main(): the first library call of a process passes more line events than the step cap
+
+
 def gen_run(index: int, vseed: int, pool: dict) -> dict:
     seed = core.run_seed(vseed, PROP, index)
     rng = random.Random(seed)
     n = 2 if rng.random() < 0.7 else 3
     granularity = "opcode" if rng.random() < 0.2 else "line"
-    warm = rng.random() < 0.3
+    # a tree that initialises lazily makes every cold run pay for the initialisation under tracing; it still gets
+    # cold runs (that is where its races live), but fewer of them
+    warm = rng.random() < (0.9 if COLD_EXPENSIVE else 0.3)
     if warm and rng.random() < 0.3:
         warm = "heavy"  # plus ~220 distinct bank-code lookups: fills any bounded cache a change may have added
     threads: list[list] = [[] for _ in range(n)]
@@ -277,7 +282,7 @@ def sweep_runs(pair_index: int, pair: dict, vseed: int, max_points: int) -> list
     if pair.get("shape") == "grid":
         # two pre-emptions: A runs k1 points, B runs k2 points, A finishes, B finishes (sampled k1 x k2 grid)
         recs = []
-        sa, sb = runner.steps(a, "line"), runner.steps(b, "line")
+        sa, sb = runner.steps(a, "line", warm=True), runner.steps(b, "line", warm=True)
         n = pair.get("grid", 12)
         for k1 in sorted({1 + (i * sa) // n for i in range(n)}):
             for k2 in sorted({1 + (i * sb) // n for i in range(n)}):
@@ -296,7 +301,8 @@ def sweep_runs(pair_index: int, pair: dict, vseed: int, max_points: int) -> list
     for first_tid, (x, y) in enumerate(((a, b), (b, a))):
         if repeat and first_tid == 1:
             break
-        one = runner.steps(x, gran)
+        # sweep batches run warm after their first run, so the warm count is the one that places the pre-emptions
+        one = runner.steps(x, gran, warm=not pair.get("cold") == "all")
         lo, steps = (one + 1, 2 * one) if repeat else (1, one)
         stride = max(1, -(-(steps - lo + 1) // max_points))
         offset = (pair_index + first_tid) % stride
@@ -311,7 +317,7 @@ def sweep_runs(pair_index: int, pair: dict, vseed: int, max_points: int) -> list
                 "pythonhashseed": core.HASHSEED,
                 "config": {"threads": 2, "granularity": gran, "policy": ["script", script],
                            "warm": False, "mode": "sweep", "label": pair["label"],
-                           "cold": pair.get("cold") == "all" or (bool(pair.get("cold")) and k <= 40),
+                           "cold": pair.get("cold") == "all" or (bool(pair.get("cold")) and k <= (8 if COLD_EXPENSIVE else 40)),
                            "warm_lookups": pair.get("warm_lookups", 0)},
                 "threads": threads, "targets": [[tg[0], tg[0]], [tg[1]]] if repeat else [[tg[0]], [tg[1]]],
                 "policy_seed": 0,
@@ -452,7 +458,8 @@ def est_steps(rec: dict) -> int:
     if rec["config"]["policy"][0] != "pct":
         return 0
     g = rec["config"]["granularity"]
-    return sum(300 if ops.refs_of(op) else runner.steps(op, g) for th in rec["threads"] for op in th)
+    return sum(300 if ops.refs_of(op) else runner.steps(op, g, warm=bool(rec["config"].get("warm")))
+               for th in rec["threads"] for op in th)
 
 
 def execute_record(rec: dict, keep_events: bool = False):
@@ -764,6 +771,13 @@ def main() -> int:
     print(f"VERIF_SEED={vseed} property={PROP} tier={args.tier} tree={core.src_dir()} workers={core.workers()}")
     pool = runner.build_pool_isolated()
     runner.WARM_BATTERY[:] = runner.default_warm_battery(pool)
+    global COLD_EXPENSIVE
+    probe_key = (pool["bank_keys"]["single"] or pool["bank_keys"]["missing"])[0]
+    cold_cost = runner.steps(["bic_candidates", *probe_key], "line")
+    COLD_EXPENSIVE = cold_cost > MAX_STEPS  # a deterministic function of the tree, not of the clock
+    if COLD_EXPENSIVE:
+        print(f"note: the first lookup of a process passes {cold_cost} pre-emption points (> step cap {MAX_STEPS}): "
+              f"lazily initialising tree, 10 % instead of 70 % of the random runs start cold")
     nruns = args.runs if args.runs is not None else int(os.environ.get("VERIF_RUNS") or (4000 if args.tier == "quick" else 150_000))
     tasks = []
     pairs = [] if args.no_sweep else sweep_pairs(pool, args.tier, vseed)
@@ -893,6 +907,7 @@ def main() -> int:
                        "stub": ["thread scheduling (baton + seeded policy)", "threading.Lock/RLock/Condition created by the package (SimLock)"]},
         "violations_seen": vcount,
         "tasks_cut_short_by_wall_clock_cap": skipped,
+        "cold_start_cost_in_preemption_points": cold_cost, "cold_runs_reduced_for_lazy_tree": COLD_EXPENSIVE,
         "tree_sha256": core.tree_digest(),
     }
     if skipped:
